@@ -388,6 +388,11 @@ def extra(ctx, out, quick_n=60, thorough_n=600):
     dist['expected_false_confirmed'] = len(exp_cases) - len(ex_bad)
     out.evaluations += len(mcases)
     out.nontrivial += len(distinct)
+    # minimum-count guard: an empty or almost empty stream must not pass for a tie
+    n_eval__ = max([v for k, v in dist.items() if isinstance(v, int) and k in ('programs', 'pairs', 'cases', 'sets', 'joints', 'evaluated')] + [0])
+    if n_eval__ < 5:
+        out.corr_errors.append('gen_clear2: only %d cases were evaluated (distribution %r)' % (n_eval__, {k: v for k, v in dist.items() if isinstance(v, int)}))
+
     out.extra['clear2_model'] = dist
     out.trusted_base = list(out.trusted_base or []) + TRUSTED
     out.assumptions = list(out.assumptions or []) + ASSUMPTIONS
